@@ -10,6 +10,7 @@ import (
 	"path/filepath"
 	"sort"
 	"strings"
+	"sync"
 	"testing"
 	"time"
 
@@ -18,6 +19,7 @@ import (
 	"verifharness/internal/fakes"
 	"verifharness/internal/gen"
 
+	cid "github.com/ipfs/go-cid"
 	ds "github.com/ipfs/go-datastore"
 	dssync "github.com/ipfs/go-datastore/sync"
 	ipfscluster "github.com/ipfs/ipfs-cluster"
@@ -26,6 +28,7 @@ import (
 	peer "github.com/libp2p/go-libp2p-core/peer"
 	peerstore "github.com/libp2p/go-libp2p-core/peerstore"
 	ma "github.com/multiformats/go-multiaddr"
+	mh "github.com/multiformats/go-multihash"
 	"pgregory.net/rapid"
 )
 
@@ -47,14 +50,15 @@ var ctx = context.Background()
 var norm = cmpx.Norm{DropUserAllocs: true, ExpirySeconds: true, ModeFromDepth: true, SortAllocs: true}
 
 type node struct {
-	idx    int
-	folder string
-	f      *fakes.ClusterFixture
-	cons   *raft.Consensus
-	up     bool
+	idx       int
+	maxAppend int
+	folder    string
+	f         *fakes.ClusterFixture
+	cons      *raft.Consensus
+	up        bool
 }
 
-func raftCfg(folder string, init []peer.ID) *raft.Config {
+func raftCfg(folder string, init []peer.ID, maxAppend int) *raft.Config {
 	cfg := &raft.Config{}
 	cfg.Default()
 	cfg.DataFolder = filepath.Join(folder, "raft")
@@ -71,6 +75,14 @@ func raftCfg(folder string, init []peer.ID) *raft.Config {
 	cfg.RaftConfig.SnapshotThreshold = 4
 	cfg.RaftConfig.SnapshotInterval = 100 * time.Millisecond
 	cfg.RaftConfig.TrailingLogs = 1
+	if maxAppend > 0 {
+		// long-log cases: no snapshots, so a new peer catches up by log
+		// replay in small batches
+		cfg.RaftConfig.MaxAppendEntries = maxAppend
+		cfg.RaftConfig.SnapshotThreshold = 1000000
+		cfg.RaftConfig.SnapshotInterval = time.Hour
+		cfg.RaftConfig.TrailingLogs = 1000000
+	}
 	return cfg
 }
 
@@ -84,7 +96,7 @@ func (n *node) start(init []peer.ID, staging bool, repin bool, all []*node) erro
 			o.f.Host.Peerstore().AddAddrs(h.ID(), h.Addrs(), peerstore.PermanentAddrTTL)
 		}
 	}
-	cons, err := raft.NewConsensus(h, raftCfg(n.folder, init), dssync.MutexWrap(ds.NewMapDatastore()), staging)
+	cons, err := raft.NewConsensus(h, raftCfg(n.folder, init, n.maxAppend), dssync.MutexWrap(ds.NewMapDatastore()), staging)
 	if err != nil {
 		h.Close()
 		return err
@@ -151,7 +163,7 @@ func (n *node) stop() {
 	}
 }
 
-const rule = "state machine on up to 4 full Cluster instances (real Raft consensus with data folders, harness tracker/monitor/IPFS) on loopback: initial cluster of 1-3 members, then 3-6 steps of pin/unpin at any member, PeerAdd of a fresh staging peer at any member, Join of a fresh peer through any member, PeerRemove issued at any member against any member (leader, follower, the caller itself), PeerAdd of a present peer, PeerRemove of an absent peer, removal of the last peer; re-pinning on or off; model = member set and pinset; oracle after each step (bounded polling): every running member reports the model's peerset and pinset, no-ops return nil and change nothing, the last peer cannot be removed, a new peer lists exactly the model pinset at the moment it reports ready, a removed peer shuts itself down and its Raft data folder is cleaned, and with re-pinning on no pin is left allocated only to the removed peer; non-trivial = a removal of a peer holding pins or a join/add after pins exist; distinct by script"
+const rule = "state machine on up to 4 full Cluster instances (real Raft consensus with data folders, harness tracker/monitor/IPFS) on loopback: initial cluster of 1-3 members (one case in four pre-loaded with 1200 pins and MaxAppendEntries 1-4; each peer with 0-2 older backups of Raft data on disk), then 3-6 steps of pin/unpin at any member, PeerAdd of a fresh staging peer at any member, Join of a fresh peer through any member, PeerRemove issued at any member against any member (leader, follower, the caller itself), PeerAdd of a present peer, PeerRemove of an absent peer, removal of the last peer; re-pinning on or off; model = member set and pinset; oracle after each step (bounded polling): every running member reports the model's peerset and pinset, no-ops return nil and change nothing, the last peer cannot be removed, a new peer lists exactly the model pinset at the moment it reports ready, a removed peer shuts itself down and its Raft data folder is cleaned, and with re-pinning on no pin is left allocated only to the removed peer; non-trivial = a removal of a peer holding pins or a join/add after pins exist; distinct by script"
 
 func TestMembership(t *testing.T) {
 	leg := ev.L("membership", rule)
@@ -162,10 +174,27 @@ func TestMembership(t *testing.T) {
 		os.MkdirAll(dir, 0700)
 		defer os.RemoveAll(dir)
 		repin := rapid.Bool().Draw(t, "repinning")
-		n0 := rapid.IntRange(1, 3).Draw(t, "initial")
+		n0 := rapid.SampledFrom([]int{1, 2, 3, 3}).Draw(t, "initial")
+		// one case in four starts with a long log (1200 pins) replicated in
+		// small AppendEntries batches, so that a peer added later needs many
+		// round trips to catch up
+		bulk := 0
+		maxAppend := 0
+		if rapid.IntRange(0, 3).Draw(t, "bulk") == 0 {
+			bulk = 1200
+			maxAppend = rapid.SampledFrom([]int{1, 2, 4}).Draw(t, "maxAppendEntries")
+		}
 		nodes := make([]*node, 4)
 		for i := range nodes {
-			nodes[i] = &node{idx: i, folder: filepath.Join(dir, fmt.Sprintf("p%d", i))}
+			nodes[i] = &node{idx: i, maxAppend: maxAppend, folder: filepath.Join(dir, fmt.Sprintf("p%d", i))}
+			// a peer may have been removed from a cluster before: 0-2 older
+			// backups of its Raft data exist beside the data folder
+			nb := rapid.SampledFrom([]int{0, 1, 2, 2}).Draw(t, "oldBackups")
+			for b := 0; b < nb; b++ {
+				d := filepath.Join(nodes[i].folder, fmt.Sprintf("raft.old.%d", b))
+				os.MkdirAll(filepath.Join(d, "snapshots"), 0700)
+				ioutil.WriteFile(filepath.Join(d, "raft.db"), []byte("old"), 0600)
+			}
 		}
 		defer func() {
 			for _, n := range nodes {
@@ -188,9 +217,43 @@ func TestMembership(t *testing.T) {
 				t.Fatalf("VERIF-INFRA: initial member %d not ready", i)
 			}
 		}
-		script := []string{fmt.Sprintf("initial=%d repinning=%v", n0, repin)}
+		script := []string{fmt.Sprintf("initial=%d repinning=%v bulk=%d maxAppend=%d", n0, repin, bulk, maxAppend)}
 		model := map[string]*api.Pin{}
 		classes := map[string]bool{}
+		if bulk > 0 {
+			var wg sync.WaitGroup
+			var mu sync.Mutex
+			var bulkErr error
+			for w := 0; w < 8; w++ {
+				wg.Add(1)
+				go func(w int) {
+					defer wg.Done()
+					for i := w; i < bulk; i += 8 {
+						p := api.PinCid(bulkCid(i))
+						p.Name = fmt.Sprintf("bulk%d", i)
+						p.ReplicationFactorMin, p.ReplicationFactorMax = -1, -1
+						p.MaxDepth = -1
+						err := nodes[0].cons.LogPin(ctx, p)
+						mu.Lock()
+						if err != nil {
+							bulkErr = err
+						} else {
+							model[p.Cid.String()] = p
+						}
+						mu.Unlock()
+						if err != nil {
+							return
+						}
+					}
+				}(w)
+			}
+			wg.Wait()
+			if bulkErr != nil {
+				leg.Inconclusive(fmt.Sprintf("bulk pin returned an error: %v", bulkErr))
+				t.Skip("bulk load not acknowledged")
+			}
+			classes["bulk"] = true
+		}
 		fail := func(format string, a ...interface{}) {
 			t.Fatalf("%s\nscript: %s", fmt.Sprintf(format, a...), strings.Join(script, " ; "))
 		}
@@ -301,6 +364,9 @@ func TestMembership(t *testing.T) {
 			if len(model) > 0 {
 				classes["nontrivial"] = true
 				classes["join-after-pins"] = true
+			}
+			if bulk > 0 {
+				classes["join-after-bulk"] = true
 			}
 			settle("after adding a peer")
 		}
@@ -444,4 +510,13 @@ func idxCid(c interface{ String() string }) int {
 		}
 	}
 	return -1
+}
+
+// bulkCid returns the i-th CID of the bulk load.
+func bulkCid(i int) cid.Cid {
+	h, err := mh.Sum([]byte(fmt.Sprintf("verif-bulk-%d", i)), mh.SHA2_256, -1)
+	if err != nil {
+		panic(err)
+	}
+	return cid.NewCidV1(cid.Raw, h)
 }
